@@ -61,13 +61,15 @@ fn artifacts_map(rng: &mut Rng) -> BTreeMap<VirtualTargetPath, in_toto::models::
 
 fn gen_layout(rng: &mut Rng, pool: &[in_toto::crypto::PrivateKey]) -> MetadataWrapper {
     let mut b = LayoutMetadataBuilder::new().expires(expiry(rng)).readme(text(rng));
+    let mut late_steps: Vec<Step> = vec![];
     for _ in 0..rng.below(3) {
         let mut st = Step::new(&text(rng)).threshold(*rng.pick(&[0u32, 1, 1, 2, 3, u32::MAX])).expected_command(command(rng));
         for k in pool.iter() { if rng.chance(40) { st = st.add_key(k.key_id().clone()); } }
         for r in rules(rng) { st = st.add_expected_material(r); }
         for r in rules(rng) { st = st.add_expected_product(r); }
-        b = b.add_step(st);
+        if rng.chance(30) { late_steps.push(st); } else { b = b.add_step(st); }
     }
+    if !late_steps.is_empty() { b = b.add_steps(late_steps); }
     for _ in 0..rng.below(3) {
         let mut i = Inspection::new(&text(rng)).run(command(rng));
         for r in rules(rng) { i = i.add_expected_material(r); }
@@ -109,6 +111,20 @@ pub fn run(r: &mut Report) {
                 serde_json::to_string(prev).unwrap_or_default().chars().take(200).collect::<String>(), serde_json::to_string(&md).unwrap_or_default().chars().take(200).collect::<String>())); } }
             Some(_) => {}
             None => { distinct += 1; by_bytes.insert(bytes.clone(), md.clone()); }
+        }
+        // the canonical bytes read back through the crate's own byte-level entry points: the typed one (right type: equal value;
+        // wrong type: never the same value) and the type-guessing one
+        {
+            use in_toto::models::MetadataType;
+            let (own, other) = match &md { MetadataWrapper::Layout(_) => (MetadataType::Layout, MetadataType::Link), MetadataWrapper::Link(_) => (MetadataType::Link, MetadataType::Layout) };
+            let typed = no_panic(|| MetadataWrapper::from_bytes(&bytes, own));
+            let guessed = no_panic(|| MetadataWrapper::try_from_bytes(&bytes));
+            let wrong = no_panic(|| MetadataWrapper::from_bytes(&bytes, other));
+            let ok = matches!(&typed, Ok(Ok(x)) if *x == md) && matches!(&guessed, Ok(Ok(x)) if *x == md) && !matches!(&wrong, Ok(Ok(x)) if *x == md) && wrong.is_ok();
+            if !ok && wire_bad.len() < 4 {
+                wire_bad.push(format!("doc {}: canonical bytes {} read back typed={:?} guessed={:?} wrong-type={:?}", i, String::from_utf8_lossy(&bytes).chars().take(160).collect::<String>(),
+                    typed.as_ref().map(|x| x.as_ref().map(|v| *v == md).map_err(|e| e.to_string())), guessed.as_ref().map(|x| x.as_ref().map(|v| *v == md).map_err(|e| e.to_string())), wrong.as_ref().map(|x| x.as_ref().map(|v| *v == md).map_err(|e| e.to_string().chars().take(60).collect::<String>()))));
+            }
         }
         let own_sigs = match no_panic(|| Metablock::new(md.clone(), &[&signer])) { Ok(Ok(m)) => Some(m.signatures), _ => None };
         // near neighbours: one random edit of the JSON form (a string or number replaced by another pool value, an array element
